@@ -796,3 +796,75 @@ def run_fork_tables(tier, log, seed):
     else:
         res.update(status="pass")
     return res
+
+
+# ------------------------------------------------------------------------------------------------ C10 (flag propagation)
+CALL_FNS = [("call", False), ("call_code", False), ("delegate_call", False), ("static_call", True),
+            ("extcall", False), ("extdelegatecall", False), ("extstaticcall", True)]
+
+
+def interpreter_field_index(field):
+    src = open("/repo/crates/interpreter/src/interpreter.rs").read()
+    m = re.search(r"pub struct Interpreter \{(.*?)\n\}", src, re.S)
+    names = re.findall(r"^\s*pub (\w+):", m.group(1), re.M)
+    return names.index(field)
+
+
+def run_static_flag(tier, log, seed):
+    text = mir.dump("interpreter", log)
+    funcs = mir.parse_functions(text)
+    duo = smt.Duo(timeout_s=30)
+    failures, inconcl, samples = [], [], []
+    idx = interpreter_field_index("is_static")
+    for fname, forced in CALL_FNS:
+        cands = [f for n, fl in funcs.items() for f in fl if n in ("instructions::contract::" + fname, "contract::" + fname, fname)]
+        if len(cands) != 1:
+            inconcl.append(f"{fname}: MIR body not found uniquely ({len(cands)})")
+            continue
+        fn = cands[0]
+        aggs = [s for b in fn.blocks.values() for s in b.stmts if re.search(r"= CallInputs \{", s)]
+        if len(aggs) != 1:
+            inconcl.append(f"{fname}: expected one CallInputs construction, found {len(aggs)}")
+            continue
+        m = re.search(r"is_static: ([^,}]+)", aggs[0])
+        op = m.group(1).strip()
+        term, why = "unk", op
+        if op in ("const true", "const false"):
+            term, why = op[6:], "literal " + op[6:]
+        else:
+            mm = re.match(r"^(?:move|copy) (_\d+)$", op)
+            if mm:
+                ds = defs_of(fn, mm.group(1))
+                if len(ds) == 1 and re.match(r"^copy \(\(\*_1\)\.%d: bool\)$" % idx, ds[0]):
+                    term, why = "parent", "interpreter.is_static"
+                else:
+                    why = f"{ds}"
+        want = "true" if forced else "parent"
+        v, model, detail = duo.check(["(declare-const parent Bool)", "(declare-const unk Bool)"], [f"(not (= {term} {want}))"], want_model_of=("parent",))
+        samples.append(f"{fname}: CallInputs.is_static = {why}; required {'true' if forced else 'the parent frame flag'} -> {v}")
+        log(f"[e3] {samples[-1]}")
+        if v == "unsat":
+            continue
+        if v != "sat":
+            inconcl.append(f"{fname}: {detail}")
+            continue
+        parent = "true" in model
+        st, out = native.call("debug", "call_flag", fname, "true" if parent else "false", log=log)
+        desc = f"{fname}: the child frame's static flag is {why}, not {'true' if forced else 'inherited from the parent'}"
+        if st == "ok" and out.startswith("child_static="):
+            child = out.split("=")[1] == "true"
+            expect = True if forced else parent
+            failures.append(dict(id=f"{fname}-static-flag", reproduced=(child != expect), description=desc + f" | native: parent static={parent} -> child static={child}"))
+        else:
+            inconcl.append(f"{fname}: native scenario failed: {st} {out}")
+    q, tm = duo.queries, duo.time
+    duo.close()
+    res = dict(queries=q, solver_s=tm, engine="mir aggregate/dataflow scan -> smtlib (z3 4.8.12 + cvc5 1.0)", bounds="; ".join(samples),
+               detail="the is_static field of the CallInputs built by each call-family opcode")
+    if inconcl:
+        res.update(status="inconclusive", reason="; ".join(inconcl)[:500])
+    elif failures:
+        res.update(status="fail", failures=failures, reason=failures[0]["description"][:300])
+    else:
+        res.update(status="pass")
+    return res
